@@ -426,9 +426,35 @@ example : synd (Color666.stabilizers 5) (color666SampleRecovery 5
     [true, false, true, true, false, false, true, false, true, false, true, true, false, false, false, true, true, true]) =
     [true, false, true, true, false, false, true, false, true, false, true, true, false, false, false, true, true, true] := by
   decide +kernel
+-- the run-to-boundary hypotheses (`RotatedPlanarL.Spec.run_syndrome`, `Color666L.Spec.run_syndrome`) and the toric
+-- path hypothesis hold on concrete lattices (bounded kernel evaluation; the general statements are C15's)
+example : ((RotatedPlanar.plaquetteIndices 4 5).all fun p =>
+    synd (RotatedPlanar.stabilizers 4 5) (rpRunApply 4 5 (RotatedPlanar.identity 4 5) p) ==
+      (RotatedPlanar.plaquetteIndices 4 5).map fun q => decide (q = p)) = true := by decide +kernel
+example : ((Color666L.cplaqs 5).all fun x =>
+    synd (Color666.stabilizers 5) (Color666L.crunApply 5 (Color666.identity 5) x) ==
+      (Color666L.cplaqs 5).map fun q => decide (q = x)) = true := by decide +kernel
+example : ((Toric.indices 2 3).all fun a => (Toric.indices 2 3).all fun b => a.1 != b.1 ||
+    ((Toric.path 2 3 (Toric.identity 2 3) a b).toOption.map (synd (Toric.stabilizers 2 3)) ==
+      some ((Toric.indices 2 3).map fun p => (decide (p = a) != decide (p = b))))) = true := by decide +kernel
 example : naiveDecode 2 [toBsf [.X, .X], toBsf [.Z, .Z]] [true, false] = some (toBsf [.Z, .I]) := by decide +kernel
 example : recoveryOk (Planar.stabilizers 3 3) s33 (Planar.identity 3 3) = false := by decide +kernel
 -- D2: the documented null decoder (max_iterations = 0) returns the identity, which fails the monitor on s33
 example : planarCmwpmNull 3 3 = .ok (Planar.identity 3 3) := by decide +kernel
+
+/-
+  STATED, NOT PROVED: (cross-property obligations that the theorems above take as hypotheses; they belong to
+  C15 / C07 and are discharged there, not here)
+
+  * `∀ R C, 2 ≤ R → 2 ≤ C → PlanarL.Spec R C`            — Props/C15/Planar.lean: plaquetteIndices_spec,
+                                                            path_syndrome_vector, virtualPlaquette_spec
+  * `∀ R C, 2 ≤ R → 2 ≤ C → ToricL.Spec R C`             — C15 (toric) path/endpoint lemma, indices duplicate-free
+  * `∀ R C, 3 ≤ R → 3 ≤ C → RotatedPlanarL.Spec R C`     — run-to-boundary lemma (checked above on 4×5 by the kernel)
+  * `∀ L odd, 3 ≤ L → Color666L.Spec L`                  — run-to-boundary lemma (checked above on size 5)
+  * `toric_syndrome_even`: for every error `e`, `(toricDefects R C (synd (Toric.stabilizers R C) e) l).length % 2 = 0`
+    (the product of all plaquettes of one lattice is the identity — a C07 fact)
+  * nothing is claimed about the internals of RotatedPlanarSMWPM / RotatedToricSMWPM / PlanarY: they are explored
+    through `recoveryOk` (sound by `recoveryOk_sound`), see harness/qv/props/c02.py part (b)
+-/
 
 end Qec.C02
